@@ -27,6 +27,7 @@ import (
 	"fmt"
 	"os"
 	"os/exec"
+	"runtime"
 	"runtime/debug"
 	"strings"
 	"sync"
@@ -435,6 +436,9 @@ func parentMain() {
 		rep.Sample(map[string]any{"engine": o.Engine, "world": c.W.enc(), "history": c.H, "first": o.Steps[:min(2, len(o.Steps))]})
 	}
 	targeted()
+	if runtime.GOARCH == "amd64" || runtime.GOARCH == "arm64" {
+		stackGuardStage()
+	}
 	rep.Write(orc)
 	orc.Close()
 }
